@@ -128,6 +128,35 @@ func c19Scan(c *Ctx, r *Report) {
 		if dot == nil {
 			continue
 		}
+		// a counter of the run kept beside the scan index: 0 on entry, +1 on every way round (its parity is the run's)
+		var counter *ssa.Phi
+		for _, in := range scan.Block().Instrs {
+			p, ok := in.(*ssa.Phi)
+			if !ok {
+				break
+			}
+			if p == scan {
+				continue
+			}
+			isCounter := true
+			for i, e := range p.Edges {
+				if scan.Block().Dominates(scan.Block().Preds[i]) {
+					b, ok := e.(*ssa.BinOp)
+					k, isK := int64(0), false
+					if ok {
+						k, isK = constIntOf(b.Y)
+					}
+					if !ok || b.Op != token.ADD || b.X != ssa.Value(p) || !isK || k != 1 {
+						isCounter = false
+					}
+				} else if k, isK := constIntOf(e); !isK || k != 0 {
+					isCounter = false
+				}
+			}
+			if isCounter {
+				counter = p
+			}
+		}
 		// parity: the If that follows the scan, on an expression over (scan, dot) % 2 compared with 0
 		var test *ssa.BinOp
 		allInstrs(fn, func(in ssa.Instruction) {
@@ -135,7 +164,7 @@ func c19Scan(c *Ctx, r *Report) {
 			if !ok || (bin.Op != token.EQL && bin.Op != token.NEQ) {
 				return
 			}
-			if !anyIn(sliceOf(bin.X), isValue(scan)) {
+			if !anyIn(sliceOf(bin.X), isValue(scan)) && !(counter != nil && anyIn(sliceOf(bin.X), isValue(counter))) {
 				return
 			}
 			if anyIn(sliceOf(bin.X), func(v ssa.Value) bool {
@@ -150,7 +179,11 @@ func c19Scan(c *Ctx, r *Report) {
 			continue
 		}
 		k0, isK := constIntOf(test.Y)
-		if !isK || k0 != 0 {
+		// a count of turns is never negative: its parity may be compared with 1 as well
+		countOnly := counter != nil && !anyIn(sliceOf(test.X), isValue(scan)) && !anyIn(sliceOf(test.X), isValue(dot))
+		if isK && k0 == 1 && countOnly {
+			// fine
+		} else if !isK || k0 != 0 {
 			r.undecided("C19.R1.parity", fname, c.pos(test.Pos()), "the parity is compared with %v: `x %% 2 == 1` is false for negative x in Go, so only comparisons with 0 are evaluated in the parity domain", test.Y)
 			continue
 		}
@@ -173,6 +206,8 @@ func c19Scan(c *Ctx, r *Report) {
 				return ((pd-1-pk)%2 + 2) % 2, true
 			case v == dot:
 				return pd, true
+			case counter != nil && v == ssa.Value(counter):
+				return pk, true
 			}
 			switch t := v.(type) {
 			case *ssa.Const:
@@ -219,7 +254,7 @@ func c19Scan(c *Ctx, r *Report) {
 					detail = append(detail, "not evaluable")
 					continue
 				}
-				holds := (x == 0) == (test.Op == token.EQL)
+				holds := (int64(x) == k0) == (test.Op == token.EQL)
 				// holds -> Succs[0]. Escaped (pk odd) must go to the skipping successor.
 				taken := iff.Block().Succs[1]
 				if holds {
